@@ -230,7 +230,10 @@ def run(ctx: Ctx) -> Result:
         from harness import gen_cluster as gc
         from harness.props.c04 import run_scenarios
         scs = [ctx.replay['replay']] if ctx.replay is not None else gc.racing_engine_family()
-        run_scenarios(ctx, scs, res, {'completed-twice', 'finished-run-resurrected', 'action-executed-twice'})
+        if not (ctx.replay is not None and ctx.replay['replay'].get('race')):
+            run_scenarios(ctx, scs, res, {'completed-twice', 'finished-run-resurrected', 'action-executed-twice'})
+    from harness import decider_race
+    decider_race.attach(ctx, res)
     return res
 
 
